@@ -20,6 +20,13 @@ BUILD = os.path.join(VERIF, ".build")
 HOOK_CFG = "--cfg fe2o3_amqp_verif"
 
 
+def normalize_paths(text):
+    """rustc prints the shortest unambiguous path of an item ("trimmed paths"), so the same item is
+    `BytesMut` or `bytes::BytesMut` depending on what else is in scope (cargo features, a new import).
+    The obligations' call models match on names: print these well-known items one way."""
+    return re.sub(r"\bbytes::(BytesMut|BufMut|Buf)\b", r"\1", text)
+
+
 class Env:
     """MIR of the current tree + layouts; built once per check run."""
 
@@ -41,7 +48,7 @@ class Env:
             raise RuntimeError(f"MIR dump failed (see {log})")
         open(out, "w").write(p.stdout)
         self.mir_s = round(time.time() - t0, 1)
-        self.fns = mir.parse_mir(p.stdout)
+        self.fns = mir.parse_mir(normalize_paths(p.stdout))
         srcs = glob.glob("/repo/fe2o3-amqp/src/**/*.rs", recursive=True) + glob.glob("/repo/fe2o3-amqp-types/src/**/*.rs", recursive=True)
         self.structs, self.enums = mir.parse_layouts(srcs)
         self.consts = mir.parse_consts(srcs)
@@ -66,7 +73,7 @@ class Env:
         open(os.path.join(BUILD, "mir", pkg + ".mir"), "w").write(p.stdout)
         sub = Env.__new__(Env)
         sub.log = self.log
-        sub.fns = mir.parse_mir(p.stdout)
+        sub.fns = mir.parse_mir(normalize_paths(p.stdout))
         srcs = glob.glob(f"/repo/{pkg}/src/**/*.rs", recursive=True)
         sub.structs, sub.enums = mir.parse_layouts(srcs)
         sub.consts = mir.parse_consts(srcs)
